@@ -238,29 +238,43 @@ pub fn c15_backtrack() {
     kani::cover!(a == 0.0, "gave up");
 }
 
-/// composite cone [NN2, SOC3] (all symmetric): common step = min over the parts, <= alpha_max
+/// composite cone [NN1, Zero1, NN2]: the common step is exactly the minimum over the parts, <= alpha_max.
+/// (signed powers of two: the reference ratios are exact and cheap; all-f64 ranges of the parts are
+/// decided by c15_nn2_range / c15_soc3_range)
 #[kani::proof]
 #[kani::unwind(7)]
 #[kani::stub(std::collections::hash_map::RandomState::new, stub_random_state)]
-pub fn c15_composite_nn_soc() {
-    let types = [SupportedConeT::NonnegativeConeT(2), SupportedConeT::SecondOrderConeT(3)];
-    let mut c = cc::new_without_type_counts::<f64>(&types);
-    let z: [f64; 5] = kani::any();
-    let dz: [f64; 5] = kani::any();
-    let s: [f64; 5] = kani::any();
-    let ds: [f64; 5] = kani::any();
+pub fn c15_composite_nn_zero_nn() {
+    crate::stack_composite!(c, f64, [SupportedConeT::<f64>::NonnegativeConeT(1), SupportedConeT::<f64>::ZeroConeT(1), SupportedConeT::<f64>::NonnegativeConeT(2)]);
+    let mut z = [0f64; 4];
+    let mut dz = [0f64; 4];
+    let mut s = [0f64; 4];
+    let mut ds = [0f64; 4];
+    let mut i = 0;
+    while i < 4 {
+        z[i] = pow2_signed(-20, 20);
+        dz[i] = pow2_signed(-20, 20);
+        s[i] = pow2_signed(-20, 20);
+        ds[i] = pow2_signed(-20, 20);
+        i += 1;
+    }
     let amax = any_alpha_max();
     let st = settings_f64();
     let (az, as_) = c.step_length(&dz, &ds, &z, &s, &st, amax);
     assert!(same_bits(az, as_), "composite_returns_a_common_step");
-    assert!(az >= 0.0 && az <= amax || az.is_nan(), "composite_step_in_range");
-    // never longer than what each part allows on its own
-    let mut nn = NonnegativeCone::<f64>::new(2);
-    let (nz, ns) = nn.step_length(&dz[0..2], &ds[0..2], &z[0..2], &s[0..2], &st, amax);
-    if !nz.is_nan() && !ns.is_nan() && !az.is_nan() {
-        assert!(az <= nz && az <= ns, "composite_step_not_longer_than_the_nn_part_allows");
+    // reference: min over the nonnegative rows 0, 2, 3 of both vectors (row 1 is the zero cone: unrestricted)
+    let mut r = amax;
+    for i in [0usize, 2, 3] {
+        if dz[i] < 0.0 && -z[i] / dz[i] < r {
+            r = -z[i] / dz[i];
+        }
+        if ds[i] < 0.0 && -s[i] / ds[i] < r {
+            r = -s[i] / ds[i];
+        }
     }
-    kani::cover!(az > 0.0 && az < amax, "some cone restricts the step");
+    assert!(az == r, "composite_step_is_the_minimum_over_its_cones");
+    kani::cover!(az < amax && az == -s[3] / ds[3], "last cone's slack restricts the step");
+    kani::cover!(az == amax, "nothing restricts the step");
 }
 
 /// C15.shift (NN): after the shift used at initialisation every entry is strictly positive
@@ -268,8 +282,7 @@ pub fn c15_composite_nn_soc() {
 #[kani::unwind(6)]
 #[kani::stub(std::collections::hash_map::RandomState::new, stub_random_state)]
 pub fn c15_shift_nn() {
-    let types = [SupportedConeT::NonnegativeConeT(2), SupportedConeT::ZeroConeT(1)];
-    let mut c = cc::new_without_type_counts::<f64>(&types);
+    crate::stack_composite!(c, f64, [SupportedConeT::<f64>::NonnegativeConeT(2), SupportedConeT::<f64>::ZeroConeT(1)]);
     let mut v = DefaultVariables::<f64>::new(1, 3);
     let z: [f64; 3] = kani::any();
     let s: [f64; 3] = kani::any();
@@ -297,7 +310,7 @@ pub fn c15_shift_nn() {
 #[kani::unwind(4)]
 #[kani::stub(std::collections::hash_map::RandomState::new, stub_random_state)]
 pub fn c07_alpha_range() {
-    let mut c = cc::new_without_type_counts::<f64>(&[]);
+    crate::stack_composite!(c, f64, []);
     let mut v = DefaultVariables::<f64>::new(1, 0);
     let mut step = DefaultVariables::<f64>::new(1, 0);
     v.τ = kani::any();
